@@ -3,8 +3,8 @@
    commit a re-sync wrote through the destination link, dangling links failed with EEXIST on every run and a
    retargeted link was never re-created (recorded as fixed in known_findings.json). *)
 From Coq Require Import NArith List Bool.
-From SyModel Require Import Links.
-From SyProofs Require Import Links_proofs.
+From SyModel Require Import Links Xattr.
+From SyProofs Require Import Links_proofs Xattr_proofs.
 Import ListNotations.
 
 (* preserve mode: after any number of re-syncs -- with the source link retargeted arbitrarily in between, from any
@@ -38,3 +38,35 @@ Print Assumptions C17_follow_dangling_copies_nothing.
 
 Example ex_history : resync LPreserve [mk_slink 1 RMissing; mk_slink 1 RMissing; mk_slink 2 (RFile 9)] (DFile 3) = DLink 2.
 Proof. reflexivity. Qed.
+
+(* ---------- extended attributes (Model/Xattr.v) ---------- *)
+(* With -X the destination file's attributes equal the source's: after ANY history of attribute changes on the source
+   and on the destination, content changes and runs with or without -X, from any state, a run with -X leaves the
+   destination file with the source's content and exactly the source's attributes -- whether the run created the file,
+   rewrote it in place, replaced it through a working file, or skipped it as up to date *)
+Theorem C17_xattrs_equal_after_X : forall ops big st,
+  let st' := xrun (ops ++ [XSync true big]) st in
+  exists d, xs_dst st' = Some d /\ xf_content d = xf_content (xs_src st') /\ forall k, xf_attrs d k = xf_attrs (xs_src st') k.
+Proof. exact history_x_equal. Qed.
+Print Assumptions C17_xattrs_equal_after_X.
+
+(* Without -X none are copied: an attribute found on the destination file after such a run was on it before the run
+   with that value (on a file the run skipped as up to date); a file the run created or rewrote has none *)
+Theorem C17_no_X_copies_none : forall ros big st d' k v,
+  xs_dst (sync_file ros false big st) = Some d' -> xf_attrs d' k = Some v ->
+  exists d, xs_dst st = Some d /\ xf_attrs d k = Some v /\ xf_content d = xf_content (xs_src st).
+Proof. exact sync_nox_copies_none. Qed.
+Print Assumptions C17_no_X_copies_none.
+
+(* On the pinned commit a file skipped as up to date was not looked at: an attribute changed on the source alone (size
+   and mtime unchanged) never reached the destination (`fix: refresh extended attributes of up-to-date files under -X`,
+   recorded as fixed in known_findings.json) *)
+Theorem C17_pinned_skip_refuted :
+  let st' := xrun_pinned [XSync true false; SrcSet 1 5; XSync true false] (xinit 7) in
+  match xs_dst st' with Some d => xf_attrs d 1%N = None /\ xf_attrs (xs_src st') 1%N = Some 5%N | None => False end.
+Proof. vm_compute. split; reflexivity. Qed.
+
+Example ex_xattr_history :
+  let st' := xrun [SrcSet 1 5; SrcSet 2 6; XSync true false; SrcDel 2; SrcWrite 9; DstSet 3 1; XSync true false] (xinit 7) in
+  match xs_dst st' with Some d => observe_attrs [1; 2; 3]%N (xf_attrs d) = [Some 5; None; None]%N /\ xf_content d = 9%N | None => False end.
+Proof. vm_compute. split; reflexivity. Qed.
